@@ -14,6 +14,7 @@ import sys
 
 sys.path.insert(0, os.path.dirname(os.path.abspath(__file__)))
 import anyio  # noqa: E402
+from guard import guarded_run  # noqa: E402
 from asphalt.core import Context, current_context, start_background_task_factory  # noqa: E402
 from director import Director, backend_options, settle  # noqa: E402
 
@@ -180,6 +181,11 @@ def live(st):
     out = []
     for h in hs:
         out.append(next((i for i, x in enumerate(st["handles"]) if x is h), 999))
+    # what the caller does with the set it was given is the caller's business: empty it
+    try:
+        hs.clear()
+    except AttributeError:
+        pass
     return sorted(out)
 
 
@@ -190,7 +196,7 @@ def main():
         try:
             async def runner():
                 return await run_case(case)
-            res.append(anyio.run(runner, backend=case["backend"], backend_options=backend_options(case["backend"])))
+            res.append(guarded_run(runner, backend=case["backend"], backend_options=backend_options(case["backend"])))
         except BaseException:  # noqa
             import traceback
             res.append({"backend": case["backend"], "gates": case["gates"], "crash": traceback.format_exc()[-2500:]})
